@@ -64,11 +64,7 @@ NTs(src) == 0..(Len(src.nts) - 1)
 RECURSIVE EntryRefsOf(_), CompatOf(_), PredNames(_), UsesOf(_, _)
 EntryRefsOf(e) == CASE e.k = "t" -> {}
                     [] e.k = "ref" -> {e}
-                    [] e.k = "alt" ->      \* deviation of the code, modelled as it is: the scan of the alternatives stops after
-                                           \* the first one that does not start with a non-nullable clause (short-circuit '&&')
-                         LET bad == { i \in 1..Len(e.sub) : ~CompatOf(e.sub[i]) }
-                             last == IF bad = {} THEN Len(e.sub) ELSE CHOOSE i \in bad : \A j \in bad : i <= j
-                         IN UNION { EntryRefsOf(e.sub[i]) : i \in 1..last }
+                    [] e.k = "alt" -> UNION { EntryRefsOf(e.sub[i]) : i \in 1..Len(e.sub) }
                     [] OTHER -> EntryRefsOf(e.sub[1])            \* seq: its first element; opt, list, cond: the content
 CompatOf(e) == CASE e.k \in {"t", "ref"} -> TRUE
                  [] e.k = "alt" -> \A i \in 1..Len(e.sub) : CompatOf(e.sub[i])
